@@ -615,6 +615,18 @@ pub fn run(rng: &mut Rng, out: &mut Out, thorough: bool, variant: &str) {
             }
         }
     }
+    // the position stored in the last block sample of the run-length vector is exactly a power of two
+    for _ in 0..(if thorough { 8 } else if primary { 3 } else { 1 }) {
+        if let Some((len, runs)) = rl_pow2_tail(rng, 13) {
+            let mut bits = vec![false; len];
+            for (s0, l0) in runs.iter() {
+                for i in *s0..(*s0 + *l0) {
+                    bits[i] = true;
+                }
+            }
+            emit(out, "rl_pow2_tail", &bits, rng, 1);
+        }
+    }
     // a few long ones (several RL blocks, several words of the sparse high part)
     let long_styles = [Style::Runs(4), Style::Sparse(9), Style::Half, Style::Dense(20), Style::Runs(60), Style::Sparse(400), Style::Ones, Style::Clusters];
     let nlong = if thorough { 32 } else if primary { 4 } else { 1 };
